@@ -1962,10 +1962,8 @@ Definition Hist (s : state) : Prop := Forall (w_hist (s_len s)) (s_ws s).
 
 Lemma w_hist_set_len w L : w_hist None w -> w_hist (Some L) w.
 Proof.
-  intros (A & B & C). repeat split; auto; try (apply A; auto).
-  - apply B; auto.
+  intros (A & B & C). split; [exact A|split].
   - intros E. destruct (B E) as (_ & L0 & X & _). discriminate.
-  - apply C; auto.
   - intros E. destruct (C E) as (_ & L0 & X & _). discriminate.
 Qed.
 
@@ -2010,7 +2008,8 @@ Proof.
   assert (I : Inv (run ops init)) by (apply Inv_run, Inv_init).
   assert (Hs : Hist (run ops init)) by (apply Hist_run; [apply Inv_init|constructor]).
   assert (St : w_seen w = t).
-  { pose proof (seen_trace ops init i Inv_init) as X. unfold seen0 in X. rewrite Hn in X. simpl in X. exact X. }
+  { pose proof (seen_trace ops init i Inv_init) as X. unfold seen0 in X. rewrite Hn in X. simpl in X.
+    destruct i; simpl in X; exact X. }
   destruct I as (_ & I2 & _). destruct (Forall_nth _ _ _ _ I2 Hn) as (A & B & C & _).
   destruct (Forall_nth _ _ _ _ Hs Hn) as (G1 & G2 & G3). fold len in A, B, G2, G3.
   rewrite St in *. split; auto. split; [|split; [|split]].
